@@ -100,10 +100,11 @@ impl Worker {
         let exe = std::env::current_exe().map_err(|e| e.to_string())?;
         let errfile = crate::run::scratch_dir().join(format!("worker-{}.err", tag));
         let err = std::fs::File::create(&errfile).map_err(|e| e.to_string())?;
-        // 1 GiB address space, default 8 MiB main stack
+        // 1 GiB address space; 2 MiB main stack = what a Rust thread gets by default, the smallest
+        // stack a caller of the library can reasonably be expected to run a build on
         let mut child = Command::new("sh")
             .arg("-c")
-            .arg("ulimit -v 1048576; exec \"$0\" \"$1\"")
+            .arg("ulimit -v 1048576; ulimit -s 2048; exec \"$0\" \"$1\"")
             .arg(&exe)
             .arg(if full { "worker-full" } else { "worker" })
             .env("RUST_BACKTRACE", "0")
